@@ -390,9 +390,21 @@ uint64_t alloc_hint(const Bytes &img) {
 	}
 	// a header that could not be delimited may still carry huge NAXISn cards
 	for (size_t off = 0; off + 80 <= img.size() && off < 64 * 2880; off += 80) {
-		if (memcmp(img.data() + off, "NAXIS", 5) == 0 || memcmp(img.data() + off, "ORDER", 5) == 0) {
+		if (memcmp(img.data() + off, "NAXIS", 5) == 0) {
 			Card c = parse_card(std::string((const char *)img.data() + off, 80));
 			if (c.has_value && !c.is_string && c.value.size() > 7) return UINT64_MAX;
+		}
+		if (memcmp(img.data() + off, "ORDER", 5) == 0) {
+			// the order enters the size of every knot array (nknots + 2*order); a negative
+			// value is read into an unsigned field
+			std::string v = rstrip(std::string((const char *)img.data() + off + 9, 71));
+			size_t sl = v.find('/');
+			if (sl != std::string::npos) v = rstrip(v.substr(0, sl));
+			size_t a = v.find_first_not_of(' ');
+			v = a == std::string::npos ? "" : v.substr(a);
+			bool small = !v.empty() && v.size() <= 6;
+			for (char ch : v) if (!isdigit((unsigned char)ch)) small = false;
+			if (!small) return UINT64_MAX;
 		}
 	}
 	return m;
@@ -436,6 +448,12 @@ Hazard reader_hazard(const Bytes &img) {
 		for (; p + 80 <= size; p += 80) {
 			const uint8_t *c = img.data() + p;
 			if (memcmp(c, "END     ", 8) == 0) { end = true; p += 80; break; }
+			if (hdu == 0 && memcmp(c, "ORDER", 5) == 0 && c[8] != '=') {
+				// damaged value indicator: cfitsio still hands the rest of the card to its integer parser
+				std::string v = rstrip(std::string((const char *)c + 8, 72));
+				if (v.size() >= 28 && hz.cls.empty()) { hz.cls = "long-order-value"; hz.what = "an ORDER card without value indicator carries " + std::to_string(v.size()) + " characters of text"; }
+				continue;
+			}
 			if (c[8] != '=') continue;
 			if (memcmp(c, "NAXIS   ", 8) == 0) { if (naxis < 0) naxis = atoll(value_of(c).c_str()); }
 			else if (memcmp(c, "NAXIS", 5) == 0 && c[5] >= '1' && c[5] <= '8' && c[6] == ' ') { if (!dims[c[5] - '1']) dims[c[5] - '1'] = atoll(value_of(c).c_str()); }
@@ -838,6 +856,19 @@ Json IoHarness::gen_c08(uint64_t runseed, const std::string &tier) {
 			o["faults"] = fl;
 			ops.push(o);
 		}
+		// Growth failures of the memory file behind write_fits_mem ("mem_fault" ops, wrapped
+		// realloc) are implemented but not generated: after a failed growth cfitsio carries
+		// on with indeterminate HDU state, so the outcome (success with a short buffer, or
+		// a stack overflow in fits_write_pix) depends on heap history and would make runs
+		// irreproducible across batch partitions. See notes/io-findings.md.
+		if (false && fr.chance(0.3)) {
+			Json o = Json::object();
+			o["op"] = Json("mem_fault");
+			o["at"] = Json((long long)fr.below(1000));
+			o["persistent"] = Json(fr.chance(0.4));
+			// first or last, so that the file faults do not always shadow it
+			if (fr.chance(0.3)) ops.a.insert(ops.a.begin(), o); else ops.push(o);
+		}
 	}
 	plan["ops"] = ops;
 	return plan;
@@ -1101,6 +1132,66 @@ void IoHarness::exec_c08(const Json &plan, Env &env) {
 			size_t maxn = (size_t)op.geti("max", 200);
 			if (all.size() <= maxn) ctx.count("c08:fault_enum_complete"); else all.resize(maxn);
 			for (auto &f : all) { Json fl = Json::array(); fl.push(f); if (fault_one(fl)) return; }
+		} else if (kind == "mem_fault") {
+			// growth failure of the memory file behind write_fits_mem (wrapped realloc)
+			const char *mop = w.c_api ? "writesplinefitstable_mem" : "write_fits_mem";
+			auto write_mem = [&](Bytes &outb, std::string &what) -> bool {
+				if (w.c_api) {
+					struct splinetable_buffer ob{nullptr, 0};
+					int rc = writesplinefitstable_mem(&ob, &w.handle);
+					if (rc) { what = "status " + std::to_string(rc); return false; }
+					outb.assign((uint8_t *)ob.data, (uint8_t *)ob.data + ob.size);
+					free(ob.data);
+					return true;
+				}
+				try { auto pr = ref.get().write_fits_mem(); outb.assign((uint8_t *)pr.first, (uint8_t *)pr.first + pr.second); free(pr.first); return true; }
+				catch (std::exception &e) { what = e.what(); return false; }
+			};
+			Bytes good, got;
+			std::string what;
+			disk::arm_realloc(-1, false);   // counts, never fires
+			ctx.crumb("%s|none|count reallocs", mop);
+			bool ok0 = write_mem(good, what);
+			uint64_t n = disk::realloc_calls();
+			disk::disarm_realloc();
+			if (!ok0) { ctx.violate(std::string("C08|record|") + mop + "|none|fault-free-write-failed", what); return; }
+			if (!n) { ctx.log.ev("mem_fault inapplicable: no realloc during %s", mop); continue; }
+			int64_t at = (int64_t)((uint64_t)op.geti("at") % n);
+			bool pers = op.getb("persistent");
+			ctx.crumb("%s|realloc|at=%lld", mop, (long long)at);
+			// cfitsio is known to go on with inconsistent HDU state after a failed growth of
+			// its memory file (the next fits_write_pix then reads a garbage NAXIS): the
+			// faulty write is first tried in a forked child
+			{
+				std::string how = dies_in_child([&]() { Bytes b2; std::string w2; disk::arm_realloc(at, pers); write_mem(b2, w2); });
+				if (!how.empty()) {
+					ctx.count("fault:realloc:ENOMEM");
+					env.nontrivial = true;
+					ctx.log.ev("mem_fault realloc@%lld/%llu%s -> writer dies in the forked probe: %s", (long long)at, (unsigned long long)n, pers ? " persistent" : "", how.c_str());
+					env.state(mop, "realloc:ENOMEM", "dies");
+					ctx.aux["explicit"] = op;
+					ctx.violate(std::string("C08|memfile|") + mop + "|realloc|writer-dies", "realloc #" + std::to_string(at) + " of the memory file failed; " + mop + " dies in a forked probe (" + how + ")");
+					return;
+				}
+			}
+			disk::arm_realloc(at, pers);
+			bool ok1 = write_mem(got, what);
+			uint64_t fired = disk::realloc_fired();
+			disk::disarm_realloc();
+			if (fired) { ctx.count("fault:realloc:ENOMEM", (int64_t)fired); env.nontrivial = true; }
+			ctx.log.ev("mem_fault realloc@%lld/%llu%s fired=%llu -> %s %s", (long long)at, (unsigned long long)n, pers ? " persistent" : "", (unsigned long long)fired, ok1 ? "success" : "failure", clip(what, 80).c_str());
+			env.state(mop, "realloc:ENOMEM", ok1 ? "ok" : "failed");
+			if (ok1 && got != good) {
+				disk::Image mi; mi.exists = true; mi.bytes = got;
+				ImageCheck ic = check_image(env, mi, table, false);
+				if (ic.v != V_EQUAL) {
+					ctx.aux["explicit"] = op;
+					ctx.violate(std::string("C08|memfile|") + mop + "|realloc|reported-success-buffer-incomplete",
+					            "realloc #" + std::to_string(at) + " failed, " + mop + " reported success with a buffer of " + std::to_string(got.size()) + " bytes instead of " + std::to_string(good.size()) + " that reads back " + verdict_name(ic.v));
+					return;
+				}
+			}
+			if (!ok1) ctx.count("probe:mem_writer_reported_failure");
 		} else ctx.log.ev("unknown op %s ignored", kind.c_str());
 	}
 }
@@ -1793,6 +1884,8 @@ std::vector<Json> IoHarness::simplify(const Json &plan, const Json &aux) {
 					std::string e = fl.a[k].gets("err");
 					if (e.compare(0, 6, "short_") == 0) { Json c = plan; c["ops"].a[i]["faults"].a[k]["err"] = Json(e.substr(6)); out.push_back(c); }
 				}
+			} else if (op.gets("op") == "mem_fault") {
+				if (op.getb("persistent")) { Json c = plan; c["ops"].a[i]["persistent"] = Json(false); out.push_back(c); }
 			} else if (op.gets("op") == "crash") {
 				if (op.geti("b")) { Json c = plan; c["ops"].a[i]["b"] = Json(0); out.push_back(c); }
 				if (op.gets("reader") == "mem") { Json c = plan; c["ops"].a[i]["reader"] = Json("disk"); out.push_back(c); }
